@@ -8,7 +8,7 @@ VERIF = os.path.dirname(os.path.dirname(os.path.abspath(__file__)))
 CHECKS = {
     'C06': dict(
         technique='metamorphic monitor over injected schedules: every reachable processing order (exhaustive for small projects) is realised by permuting System.unprocessed_modules, the realised order is recorded by wrapping processModule, canonical dumps are compared; renamed twins check the injection against the file system; violations attributed by counterfactual re-runs with one known mechanism repaired',
-        text='Exploration over schedules. For each generated project all reachable orders (own __init__ first, children and roots in any order; up to 12/40, else sampled) are executed and the dumps of System.allobjects (type, kind, docstring, parent, bases, linearisation, subclasses, __all__, re-export location) compared; projects in which the analysis ran into an import cycle (observed at run time: a module handed out while PROCESSING) are compared on the class hierarchy only, classes identified by definition site. The same project printed under module names with a different alphabetical order is analysed without injection and compared modulo renaming. Evidence counts distinct realised schedules.',
+        text='Exploration over schedules. For each generated project all reachable orders (own __init__ first, children and roots in any order; up to 12/40, else sampled) are executed and the dumps of System.allobjects (type, kind, docstring, parent, bases, linearisation, subclasses, __all__, re-export location) compared; projects in which the analysis ran into an import cycle (observed at run time: a module handed out while PROCESSING) are compared on the class hierarchy only, classes identified by definition site. The same project printed under module names with a different alphabetical order is analysed without injection and compared modulo renaming. Evidence counts distinct realised schedules. A directed family of 72 projects with a real module-level cycle (the defining module imports its single re-exporter back at the bottom or between two classes) is run under all orders and judged without attribution, because none of the known mechanisms has a trigger in it.',
         note='A disagreement is credited to a known finding only if (a) re-running the two orders with that single mechanism repaired by a wrapper makes them agree, or (b) the run recorded that mechanism\'s witness for the differing class; anything else is a new violation.',
         ref='4/C06'),
     'C07': dict(
@@ -18,7 +18,7 @@ CHECKS = {
         ref='4/C07'),
     'C08': dict(
         technique='total-function monitor plus conservation check over hooked events: the plaintext fallback parser, the stan fallbacks and reportErrors (fatal flags) are wrapped from the harness; "gave up => reported, counted, and full original text shown in <p class=pre>"; neighbour differential against a clean system',
-        text='Exploration. A markup-fragment fuzzer (four markups, broken nesting/indentation, unknown directives, roles and fields, headings without slug, doctest indentation errors, arbitrary Unicode incl. controls and surrogates, mutated real docstrings, deep repetitions) drives format_docstring, format_summary, format_toc and flatten for eight object kinds x five docformats x process-types on/off; exceptions and confirmed CPU-budget overruns are violations; when the monitors saw the parser or renderer give up, the object must be in System.parse_errors, a counted message must exist and the page must show the complete docstring as plain text; recoverable reST problems must be reported; a control function in the same module must render as in a clean system.',
+        text='Exploration. A markup-fragment fuzzer (four markups, broken nesting/indentation, unknown directives, roles and fields, headings without slug, doctest indentation errors, arbitrary Unicode incl. controls and surrogates, mutated real docstrings, deep repetitions) drives format_docstring, format_summary, format_toc and flatten for eight object kinds x five docformats x process-types on/off; exceptions and confirmed CPU-budget overruns are violations; when the monitors saw the parser or renderer give up, the object must be in System.parse_errors, a counted message must exist and the page must show the complete docstring as plain text; recoverable reST problems must be reported (judged twice: against pydoctor\'s own parser called directly and against plain docutils parsing the same text, structural messages only); a control function in the same module must render as in a clean system.',
         note='A "fatal" error means giving up for epytext only (docutils flags recovered errors as fatal too); BROKEN placeholders are legal for summary/toc/fields only; raw/include point to non-existent paths.',
         ref='4/C08'),
     'C09': dict(
@@ -38,7 +38,7 @@ CHECKS = {
         ref='4/C11'),
     'C12': dict(
         technique='offline closed-world trace search over the output directory for every hidden object (files, anchors, link targets, listing entries, search records, inventory lines) and marker check for every listing entry of private objects, joined with the live model\'s privacy',
-        text='Exploration. Generated projects are rendered under two (quick) to four (thorough) generated --privacy rule lists each (exact names and patterns, all three levels, in varying order), covering hidden bases of visible classes, hidden modules that are imported from, hidden members that are overridden or cross-referenced and private objects in every listing; the whole output is searched for traces of each hidden object and each private listing entry is checked for the marker the public/private toggle acts on.',
+        text='Exploration. Generated projects are rendered under two (quick) to four (thorough) generated --privacy rule lists each (exact names and patterns, all three levels, in varying order), covering hidden bases of visible classes, hidden modules that are imported from, hidden members that are overridden or cross-referenced and private objects in every listing; the whole output is searched for traces of each hidden object and each private listing entry is checked for the marker the public/private toggle acts on. One partial build per project (--html-subject naming objects inside and outside hidden containers) is searched in the same way.',
         note='Only links, anchors, entries, records and files count as traces (not textual mentions); the judged listings are those the statement names (member tables, member details, sidebar, module index, search documents).',
         ref='4/C12'),
     'C13': dict(
@@ -78,7 +78,7 @@ CHECKS = {
         ref='4/C14'),
     'C15': dict(
         technique='reference-model monitor: text produced by the real colorize_pyval (block, inline and wrapped/truncated settings) is parsed back by CPython and compared with the source AST after documented-spelling normalisation; mechanism localisation by pattern rewriting',
-        text='Exploration with CPython\'s parser as reader of the displayed text. Every depth-2 expression tree (form x hole x inner form), every depth-3 operator chain over all operand positions, every literal leaf kind, re.compile calls and random deeper trees are rendered by the real colouriser under unlimited, inline and small linelen/maxlines settings; complete outputs must read back as the same expression (wrap markers removed), incomplete ones must end in the ellipsis marker. A failing expression is attributed to a known mechanism only if rewriting that syntactic pattern away makes it pass and putting it back makes it fail; anything else is a new violation.',
+        text='Exploration with CPython\'s parser as reader of the displayed text. Every depth-2 expression tree (form x hole x inner form), every depth-3 operator chain over all operand positions, every literal leaf kind, re.compile calls and random deeper trees are rendered by the real colouriser under unlimited, inline and small linelen/maxlines settings; complete outputs must read back as the same expression (wrap markers removed), incomplete ones must end in the ellipsis marker. A failing expression is attributed to a known mechanism only if rewriting that syntactic pattern away makes it pass and putting it back makes it fail; anything else is a new violation. Part E places every depth-one form, literal leaf and annotation of the signature pool in each display position of a real module (constant value at module and class level, variable/class-variable/instance-variable annotation, type alias, decorator argument, base-class subscript) and reads back what format_constant_value, type2stan, format_decorators and format_class_signature show.',
         note='Trusts ast.parse/ast.unparse of CPython 3.12 and the normaliser vf/ref/exprnorm.py (quotes, number formatting, set([..]), regex re-spelling compared by parse tree). Five defects are listed as known findings by mechanism.',
         ref='4/C15'),
     'C16': dict(
@@ -93,12 +93,12 @@ CHECKS = {
         ref='4/C17'),
     'C18': dict(
         technique='differential monitor between separate processes: the real CLI entry point is run in fresh interpreters under varied PYTHONHASHSEED, directory listing order (os.listdir/os.scandir/Path.iterdir reordered in the child by a shim) and fresh/reused output directory; output trees compared by per-file digest',
-        text='Exploration over schedules/configurations/histories. Generated projects (one or several roots, with and without an explicit project name, several docformats) and real packages are rendered by `python shim ...` = pydoctor.driver.main in a fresh process under 6 (quick) / 12 (thorough) configurations each; every file of every output tree is hashed and all trees of a project must have one digest. The first differing file and line are kept as witness.',
+        text='Exploration over schedules/configurations/histories. Generated projects (one or several roots, with and without an explicit project name, several docformats) and real packages are rendered by `python shim ...` = pydoctor.driver.main in a fresh process under 6 (quick) / 12 (thorough) configurations each; every file of every output tree is hashed and all trees of a project must have one digest. Rendering options (sidebar depths, theme, member order) vary per project, the build time comes from --buildtime or from SOURCE_DATE_EPOCH in {0, 1, 86399, 2020, 2100} and index.html must carry exactly the requested time. The first differing file and line are kept as witness.',
         note='Build time fixed by --buildtime or SOURCE_DATE_EPOCH; the order of the roots on the command line is part of the input; intersphinx off.',
         ref='4/C18'),
     'C19': dict(
         technique='trace monitor: every visit/depart dispatched through visitor._BaseVisitor is recorded (wrapped from the harness) and checked offline by a stack automaton and against an executable reading of the documented contract; exhaustive over trees<=4 x prunings x extension timings; builder scope-stack invariant hooked after processModuleAST',
-        text='Exploration. Event traces of the real Visitor.walk/walkabout are recorded at the dispatch boundary and compared, per visitor, with the trace the documented contract requires, and run through a balance/nesting/order automaton. The bounded space of the property (all trees of <=4 nodes x 5^n pruning assignments x 16 timing subsets, both traversals) is completed on every run; the real ASTBuilder with its real extensions plus four recording extensions is traced on real packages and generated modules, and its scope stack is checked after every module.',
+        text='Exploration. Event traces of the real Visitor.walk/walkabout are recorded at the dispatch boundary and compared, per visitor, with the trace the documented contract requires, and run through a balance/nesting/order automaton. The bounded space of the property (all trees of <=4 nodes x 5^n pruning assignments x 16 timing subsets, both traversals) is completed on every run; random larger trees are also walked by a visitor that already walked once and received part of its extensions afterwards (ExtList.add); the real ASTBuilder with its real extensions plus four recording extensions is traced on real packages and generated modules, and its scope stack is checked after every module.',
         note='The contract is the one in the docstrings of pydoctor/visitor.py as transcribed in vf/ref/visitor_ref.py; prunings raised by extensions are outside the statement; visits made through generic_visit are visit-only by design.',
         ref='4/C19'),
     'C20': dict(
